@@ -346,7 +346,7 @@ for key in ("Stack::Dup", "Stack::DupFrom", "Stack::Reserve", "Stack::Load", "Me
             "ParentMemory::Load", "ParentMemory::LoadRange", "Stack::Select", "Stack::SelectRange", "Stack::Drop", "Memory::Free",
             "Memory::StoreRange"):
     HARNESSES["lim_" + key.replace("::", "_").lower()] = dict(
-        props=["C05"], crates=["types", "asm", "vm"], fn=_mk_lim(key),
+        props=["C05", "C08"], crates=["types", "asm", "vm"], fn=_mk_lim(key),
         bound_text=f"{key}: stack of 4091..4093 zero words + <=3 symbolic words on top, memory/parent memory of 10236..10238 zero words + <=2 symbolic words: result respects the 4096 / 10240 limits",
         witnesses=["ok", "err"], replay=dict(kind="vm_op", op=key, lim=True))
 for key in OPS:
